@@ -17,7 +17,7 @@ import (
 func init() {
 	register(&propDef{
 		ID:          "C05",
-		Explanation: "Decides, for package safehtml and the routing into it — not a CSS tokenisation of outputs: R1 every path on which a value sanitiser (each function stored in the per-property table, and the default) returns its input unchanged is dominated, for every piece the function splits the input into, by a whole-piece validator in rejecting position: an anchored-regex MatchString, or a ContainsAny rejection whose set contains at least the string/token terminators \" \\ and newline (prefix/suffix tests and url.Parse are not validators: they constrain the ends or the URL grammar, not the alphabet); R2 every validating pattern is anchored at both ends and its alphabet (over-approximated from the regexp syntax tree) excludes ; : { } ( ) \" ' \\ < > @ and line breaks; (thorough) no string accepted by the regular-value pattern contains /*, */ or // (product of the compiled program with a substring automaton); R3 css-component expressions are emitted as templ.SanitizeCSS(<constant name>, <expr>) and constant properties as Go string literals (GEM); every write of the style-attribute builder is HTML-escaped and its content comes from safehtml.SanitizeCSS / SanitizeCSSProperty / SanitizeStyleValue or is typed SafeCSS / SafeCSSProperty (SSA), and a write directly followed by the ':' separator (a property name) comes from the name sanitiser or the name result of the pair sanitiser; the bypass in templ.SanitizeCSS is guarded by the reflect type test; R4 the property-name sanitiser returns a non-constant only after the identifier pattern matched, and an innocuous name forces the innocuous value; R5 the schemes compared in the url() check are within {http, https, mailto} and absolute URLs with other schemes are rejected; R6 the string-token escaper's arms cover NUL, <, \", \\, C0, DEL, C1, U+2028, U+2029. R7 a style attribute value passes exactly one HTML-escaping layer between the CSS sanitiser and the attribute (runtime writes and the generated sink are counted). NOT decided: CSS tokenisation of the emitted text by a browser.",
+		Explanation: "Decides, for package safehtml and the routing into it — not a CSS tokenisation of outputs: R1 every path on which a value sanitiser (each function stored in the per-property table, and the default) returns its input unchanged is dominated, for every piece the function splits the input into, by a whole-piece validator in rejecting position: an anchored-regex MatchString, or a ContainsAny rejection whose set contains at least the string/token terminators \" \\ and newline (prefix/suffix tests and url.Parse are not validators: they constrain the ends or the URL grammar, not the alphabet); R2 every validating pattern is anchored at both ends and its alphabet (over-approximated from the regexp syntax tree) excludes ; : { } ( ) \" ' \\ < > @ and line breaks; (thorough) no string accepted by the regular-value pattern contains /*, */ or // (product of the compiled program with a substring automaton); R3 css-component expressions are emitted as templ.SanitizeCSS(<constant name>, <expr>) and constant properties as Go string literals (GEM); every write of the style-attribute builder is HTML-escaped and its content comes from safehtml.SanitizeCSS / SanitizeCSSProperty / SanitizeStyleValue or is typed SafeCSS / SafeCSSProperty (SSA), and a write directly followed by the ':' separator (a property name) comes from the name sanitiser or the name result of the pair sanitiser; the bypass in templ.SanitizeCSS is guarded by the reflect type test; R4 the property-name sanitiser returns a non-constant only after the identifier pattern matched, and an innocuous name forces the innocuous value; R5 the schemes compared in the url() check are within {http, https, mailto} and absolute URLs with other schemes are rejected; R6 the string-token escaper's arms cover NUL, <, \", \\, C0, DEL, C1, U+2028, U+2029. R7 a style attribute value passes exactly one HTML-escaping layer between the CSS sanitiser and the attribute (runtime writes and the generated sink are counted). NOT decided: CSS tokenisation of the emitted text by a browser. R8 where a pass-through sanitiser strips delimiters from both ends of a piece, the two belong together: table-driven suffixes are taken from the row of a tested prefix (same range variable or same index), and one character sliced off each end is established to be the same character at both ends.",
 		Assumptions: []string{"regexp/syntax parses what regexp compiles", "a CSS string token ends only at its quote, at a newline, or through a backslash escape"},
 		Trusted:     []string{"go/types", "go/parser", "regexp/syntax", "x/tools go/packages, go/cfg, go/ssa"},
 		Run:         runC05,
@@ -26,6 +26,7 @@ func init() {
 
 func runC05(c *Ctx) {
 	c.load(".", "./runtime", "./safehtml", "./generator")
+	strippedEndsAreAPair(c, "C05.R8")
 	sp := c.pkg("safehtml")
 	info := sp.TypesInfo
 	nQuotedArms := 0
